@@ -70,7 +70,12 @@ def evaluate(out, w, annotated):
                     errs.append(("duplicates-reference", "novel %s (%s) has the intron chain of reference %s (%s)" % (tid, t["strand"], rid, s)))
             k = (t["chr"], t["strand"], introns)
             if k in chains:
-                errs.append(("duplicate-novel-chain", "novel %s and %s share the intron chain %s on %s" % (chains[k], tid, introns, t["strand"])))
+                other = novel[chains[k]]
+                oex = sorted(other["exons"])
+                far_ends = abs(oex[0][0] - ex[0][0]) > 100 or abs(oex[-1][1] - ex[-1][1]) > 100
+                sub = ":single-intron:different-ends" if (len(introns) == 1 and far_ends) else ""
+                errs.append(("duplicate-novel-chain" + sub, "novel %s and %s share the intron chain %s on %s (exons %s / %s)" %
+                             (chains[k], tid, introns, t["strand"], oex, ex)))
             chains[k] = tid
         if not annotated:
             if not str(t["gene"]).startswith("novel_gene"):
